@@ -34,6 +34,7 @@ type c02Model struct {
 	copyMode     bool
 	donor        *tabular.ATable
 	copies       int
+	keptLists    [][]*tabular.Row
 	refused      int
 	looks        int
 }
@@ -331,6 +332,20 @@ func (m *c02Model) check(c *Ctx) (string, string) {
 				return "Headers", fmt.Sprintf("Headers()[%d].Item()=%v, model id %d", i, h[i].Item(), m.header[i])
 			}
 		}
+	}
+	// every list the table ever handed out stays the caller's: the lists taken at earlier steps (the first of them
+	// while the table was still empty) are appended to and overwritten now, and the table must not notice
+	foreign := tabular.NewRow()
+	for k := range m.keptLists {
+		l := m.keptLists[k]
+		l = append(l, foreign, foreign, foreign)
+		for i := range l {
+			l[i] = foreign
+		}
+		m.keptLists[k] = l[:0]
+	}
+	if len(m.keptLists) < 4 {
+		m.keptLists = append(m.keptLists, t.AllRows())
 	}
 	for pass := 0; pass < 2; pass++ {
 		rows := t.AllRows()
